@@ -4,7 +4,7 @@
 #  1. patch applies, crate compiles, the existing suite passes; 2. demo fails with the patch; 3. demo passes without.
 # Writes /verif/seeded/<id>/{patch.diff,demo,verify.log}; prints a one-line verdict.
 set -u
-id="$1"; patch="$2"; demo="$3"; feats="${4:-}"
+id="$1"; patch="$(realpath "$2")"; demo="$(realpath "$3")"; feats="${4:-}"
 wt=/tmp/seedwt_$id
 out=/verif/seeded/$id
 mkdir -p "$out"
